@@ -145,6 +145,11 @@ func (r *RequestContext) Cookie(name string) string {
 }
 
 func (r *RequestContext) Body() any {
+	// as with the HTTP services, a request without a body has an empty body, whatever content type it names
+	if len(r.reqRawBody) == 0 {
+		return ""
+	}
+
 	if r.savedBody == nil {
 		decoder, err := contenttype.NewDecoder(r.Header("Content-Type"))
 		if err != nil {
